@@ -504,12 +504,13 @@ func check(st *stream, cfg *Cfg, o *output, verbose bool) *failure {
 		for _, r := range reads {
 			vi := readView(ipts, ib, r)
 			vo := readView(opts, ob, r)
-			class, why := compareViews(vi, vo, perm, cfg.Bottommost)
+			ni, no := normalOpacity(ipts, ib, r), normalOpacity(opts, ob, r)
+			class, why := compareViews(vi, vo, ni, no, perm, cfg.Bottommost)
 			if verbose {
-				fmt.Printf("  key %-2s read@%-8s input %-40s output %-40s %s\n", k, readName(r), vi, vo, class)
+				fmt.Printf("  key %-2s read@%-8s input %-36s [resolved: %s] output %-36s [resolved: %s] %s\n", k, readName(r), vi, opNames[ni], vo, opNames[no], class)
 			}
 			if class != "" {
-				return fail(class, "user key %q read at %s: input gives %s, output gives %s (%s; elision permitted at this key: %v)", k, readName(r), vi, vo, why, perm)
+				return fail(class, "user key %q read at %s: input gives %s (with SINGLEDELs resolved: %s), output gives %s (resolved: %s): %s; elision permitted at this key: %v", k, readName(r), vi, opNames[ni], vo, opNames[no], why, perm)
 			}
 		}
 		// (e) a future contract-abiding SINGLEDEL: if the newest entry of the key is a plain SET whose
